@@ -10,6 +10,7 @@ package nsqadmin
 
 import (
 	"bufio"
+	"encoding/base64"
 	"encoding/hex"
 	"encoding/json"
 	"fmt"
@@ -312,6 +313,7 @@ type vfE7Case struct {
 	cidr     string
 	notify   bool
 	body     string
+	query    string // raw query string appended to the path (ignored by the model)
 	world    vfE7World
 }
 
@@ -400,6 +402,9 @@ func (e *vfE7Env) run(c vfE7Case) (status int, reqs []string) {
 		real = append(real, url.PathEscape(s))
 	}
 	path := "/" + strings.Join(real, "/")
+	if c.query != "" {
+		path += "?" + c.query
+	}
 	var rd io.Reader
 	if c.body != "" {
 		rd = strings.NewReader(c.body)
@@ -550,6 +555,9 @@ func (e *vfE7Env) run(c vfE7Case) (status int, reqs []string) {
 		c.method, vfE7HexList(c.segs), vfE7HexList(c.users), vfE7Hex(c.acl), hl, b(cidrSet), b(innet), b(c.notify),
 		b(bodyOK), vfE7Hex(action), vfE7Hex(btopic), vfE7Hex(bchan), vfE7HexList(others), vfE7HexList(lfail),
 		e.cl.worldFields(c.world))
+	if c.query != "" {
+		op += " xq=" + vfE7Hex(c.query)
+	}
 	if isConfig {
 		// the literal inputs of the CIDR gate, for the independent check of the `innet` fact (ignored by the model)
 		op += fmt.Sprintf(" xcidr=%s xremote=%s", vfE7Hex(c.cidr), vfE7Hex(c.remoteOr()))
@@ -696,6 +704,57 @@ func TestVerifE7Identity(t *testing.T) {
 						[]string{"base.css", "nope.css"}[rng.Intn(2)], []string{"log_level", "bogus"}[rng.Intn(2)])
 					e.run(vfE7Case{method: r[0], segs: segs, users: users, acl: acl, sendHdrs: id.hdrs(acl),
 						cidr: "127.0.0.1/8", body: vfE7BodyFor(r[0], segs, variant), world: vfE7AllUp})
+				}
+			}
+		}
+	}
+	// the admin's name offered through any channel other than the configured ACL header must not count:
+	// every state-changing route x admin list x ACL header name x smuggling channel (ACL header absent or empty)
+	basic := func(u string) string { return "Basic " + base64.StdEncoding.EncodeToString([]byte(u+":x")) }
+	type smuggle struct {
+		name  string
+		hdrs  func(acl string) [][2]string
+		query string
+	}
+	smuggles := []smuggle{
+		{"basic-auth", func(string) [][2]string { return [][2]string{{"Authorization", basic("alice")}} }, ""},
+		{"basic-auth-empty-acl", func(acl string) [][2]string { return [][2]string{{acl, ""}, {"Authorization", basic("alice")}} }, ""},
+		{"basic-auth-second-admin", func(string) [][2]string { return [][2]string{{"Authorization", basic("bob")}} }, ""},
+		{"basic-auth-nonadmin-acl", func(acl string) [][2]string { return [][2]string{{acl, "mallory"}, {"Authorization", basic("alice")}} }, ""},
+		{"bearer", func(string) [][2]string { return [][2]string{{"Authorization", "Bearer alice"}} }, ""},
+		{"basic-no-password", func(string) [][2]string {
+			return [][2]string{{"Authorization", "Basic " + base64.StdEncoding.EncodeToString([]byte("alice"))}}
+		}, ""},
+		{"default-header-when-custom", func(acl string) [][2]string {
+			if strings.EqualFold(acl, "X-Forwarded-User") {
+				return [][2]string{{"X-Custom-Acl", "alice"}}
+			}
+			return [][2]string{{"X-Forwarded-User", "alice"}}
+		}, ""},
+		{"proxy-headers", func(string) [][2]string {
+			return [][2]string{{"X-Remote-User", "alice"}, {"Remote-User", "alice"}, {"X-Authenticated-User", "alice"}, {"From", "alice"}, {"X-User", "alice"}}
+		}, ""},
+		{"cookie", func(acl string) [][2]string {
+			return [][2]string{{"Cookie", "user=alice; " + acl + "=alice; admin=alice"}}
+		}, ""},
+		{"query", func(string) [][2]string { return nil }, "user=alice&admin=alice&X-Forwarded-User=alice&x-forwarded-user=alice&X-Custom-Acl=alice"},
+		{"query-empty-acl", func(acl string) [][2]string { return [][2]string{{acl, ""}} }, "user=alice"},
+		{"name-prefix", func(acl string) [][2]string { return [][2]string{{"X-" + acl, "alice"}, {"Proxy-" + acl, "alice"}} }, ""},
+		{"name-suffix", func(acl string) [][2]string { return [][2]string{{acl + "-Extra", "alice"}, {acl + "s", "alice"}} }, ""},
+		{"name-underscore", func(acl string) [][2]string { return [][2]string{{strings.ReplaceAll(acl, "-", "_"), "alice"}} }, ""},
+	}
+	for _, r := range routes {
+		if r[0] == "GET" || strings.HasPrefix(r[2], "expr:") || strings.HasPrefix(r[1], "/config") {
+			continue
+		}
+		for _, users := range adminLists {
+			for _, acl := range acls {
+				for _, sm := range smuggles {
+					variant++
+					segs := vfE7Instantiate(r[1], "t1", "c1", "N0", "base.css", "log_level")
+					e.run(vfE7Case{method: r[0], segs: segs, users: users, acl: acl, sendHdrs: sm.hdrs(acl), query: sm.query,
+						cidr: "127.0.0.1/8", body: vfE7BodyFor(r[0], segs, variant), world: vfE7AllUp})
+					e.hist["smuggle:"+sm.name]++
 				}
 			}
 		}
